@@ -139,6 +139,32 @@ theorem uvr_eq_direct_of_posDef (inv : InvFn ℝ) (hinv : InvCorrect inv)
   obtain ⟨e1, e2⟩ := uvr_eq_direct inv x m U V R hR' hM (hinv _ _ hPD.isUnit) c
   exact ⟨e1, e2, (uvr_defined inv x m U V R hR' hM hPD).2.1, hMu⟩
 
+/-- "given in full or as one shared block": the shared-block encoding and the per-block encoding
+    that repeats the block give the same values. -/
+theorem uvr_shared_eq_perBlock (inv : InvFn ℝ) (hinv : InvCorrect inv)
+    (x : Mat ℝ (nb * bs) b) (m : Vec ℝ (nb * bs))
+    (U : Mat ℝ (nb * bs) k) (V : Mat ℝ k (nb * bs)) (R0 : Mat ℝ bs bs)
+    (hR : IsUnit (toM R0)) (hPD : (toM (assembleS U V (RNoise.shared R0 : RNoise ℝ nb bs))).PosDef) (c : Fin b) :
+    logDensityUVR inv x m U V (RNoise.shared R0 : RNoise ℝ nb bs) c
+      = logDensityUVR inv x m U V (RNoise.perBlock (repBlocks R0) : RNoise ℝ nb bs) c ∧
+    densityUVR inv x m U V (RNoise.shared R0 : RNoise ℝ nb bs) c
+      = densityUVR inv x m U V (RNoise.perBlock (repBlocks R0) : RNoise ℝ nb bs) c := by
+  have hblk : ∀ i, (RNoise.perBlock (repBlocks R0) : RNoise ℝ nb bs).block i = R0 := by
+    intro i; ext a c'
+    simp [RNoise.block, Mat.blkCols, repBlocks, bmod_eq, bidx_modNat]
+  have hA : toM (assembleS U V (RNoise.shared R0 : RNoise ℝ nb bs))
+      = toM (assembleS U V (RNoise.perBlock (repBlocks R0) : RNoise ℝ nb bs)) := by
+    rw [toM_assembleS, toM_assembleS]
+    congr 2; funext i
+    rw [hblk i]; rfl
+  have hPD' : (toM (assembleS U V (RNoise.perBlock (repBlocks R0) : RNoise ℝ nb bs))).PosDef := hA ▸ hPD
+  obtain ⟨a1, a2, -, -⟩ := uvr_eq_direct_of_posDef inv hinv x m U V (RNoise.shared R0 : RNoise ℝ nb bs)
+    (fun i => by simpa [RNoise.block] using hR) hPD c
+  obtain ⟨b1, b2, -, -⟩ := uvr_eq_direct_of_posDef inv hinv x m U V (RNoise.perBlock (repBlocks R0) : RNoise ℝ nb bs)
+    (fun i => by rw [hblk i]; exact hR) hPD' c
+  obtain ⟨c1, c2⟩ := density_congr inv x m _ _ hA (hinv _ _ hPD.isUnit) (hinv _ _ hPD'.isUnit) c
+  exact ⟨by rw [a1, b1, c1], by rw [a2, b2, c2]⟩
+
 /-- Non-vacuity: for every `U` (any shape) the hypotheses of `uvr_eq_direct_of_posDef` hold with
     `V = Uᵀ`, `R` the shared identity block and Mathlib's inverse as the routine. -/
 theorem uvr_hypotheses_satisfiable (U : Mat ℝ (nb * bs) k) :
